@@ -335,7 +335,8 @@ pub(crate) fn run_batch(check: Arc<dyn Check>, seed: u64, tier: Tier, runs: u64,
                 break;
             }
             let run_seed = mix(mix(seed, crate::framework::hash_key(&[check.id()])), idx);
-            let trace = check.gen(run_seed, idx, tier);
+            let mut trace = check.gen(run_seed, idx, tier);
+            trace.seed = seed;
             let out = check.exec(&trace);
             if let Some(v) = &out.violation {
                 let is_known = known_sigs.iter().any(|(p, s)| *p == v.property && *s == v.sig);
